@@ -487,13 +487,18 @@ class TraceLose(TraceBase):
         q, r = DIV(Z(i), B), MOD(Z(i), B)
         X = E * B
         hyp = And(0 <= Z(i), Z(i) < A * B, Z(i) == q * B + r, 0 <= r, r < B)  # (q, r) = divmod(i, b), defining equation
-        lo, hi, st = Z(sl.start), Z(sl.stop), Z(sl.step)
+        lo, hi, st = Z(0 if sl.start is None else sl.start), Z(sl.stop), Z(1 if sl.step is None else sl.step)
         ln = node.lineno
         cx.oblige(f"slice-{tag}-step==b@{ln}", "post", Implies(hyp, st == B), ln)
         cx.oblige(f"slice-{tag}-start==(alpha,0,beta)@{ln}", "post", Implies(hyp, lo == q * (E * B) + r), ln)
         cx.oblige(f"slice-{tag}-has-exactly-e-rows@{ln}", "post",
                   Implies(hyp, And(lo + (E - 1) * st < hi, hi <= lo + E * st)), ln)
-        cx.oblige(f"slice-{tag}-inside-p@{ln}", "post", Implies(hyp, And(0 <= lo, hi <= A * E * B)), ln)
+        # cut: two arithmetic steps proved on their own, then used as hypotheses (q < a; q * (e b) <= (a - 1) * (e b))
+        Y = z3.Int(f"eb!{tag}")
+        cx.oblige(f"slice-{tag}-cut1:alpha<a@{ln}", "post", Implies(hyp, q < A), ln)
+        cx.oblige(f"slice-{tag}-cut2:monotone@{ln}", "post", Implies(And(q <= A - 1, Y >= 0, q >= 0), q * Y <= (A - 1) * Y), ln)
+        cut = And(q < A, Implies(And(q <= A - 1, X >= 0, q >= 0), q * X <= (A - 1) * X))  # cut2 at Y := e b
+        cx.oblige(f"slice-{tag}-inside-p@{ln}", "post", Implies(And(hyp, cut), And(0 <= lo, hi <= A * E * B)), ln)
 
     def at_slice(self, cx, rs, cs, node):
         v = cx.env
@@ -610,3 +615,209 @@ class TraceKeep(TraceBase):
         if ok:
             d["shape-(s,s)"] = And(Z(r.shape[0]) == S, Z(r.shape[1]) == S)
         return d
+
+
+# =====================================================================================================================
+# grid provider: the REAL functions (re-compiled from the source text of the checked tree on every run, inside the
+# namespace of quimb.core) against numpy references, on every input of a stated finite grid (exhaustive over the grid,
+# NOT a proof for larger inputs)
+# =====================================================================================================================
+
+_GRID_FNS = ("ind_complement", "itrace", "_partial_trace_dense", "_trace_lose", "_trace_keep", "_partial_trace_simple",
+             "partial_trace", "_permute_dense", "_permute_sparse", "permute", "pkron", "_find_shape_of_nested_int_array")
+
+
+def load_real(root=None, names=_GRID_FNS):
+    import quimb.core as qc
+    import vf.pyvc as P
+
+    root = root or os.environ.get("VERIF_REPO") or P.REPO
+    src = open(os.path.join(root, CORE)).read()
+    tree = ast.parse(src)
+    ns = dict(vars(qc))
+    for node in tree.body:
+        if isinstance(node, ast.FunctionDef) and node.name in names:
+            code = compile(ast.Module(body=[node], type_ignores=[]), os.path.join(root, CORE), "exec")
+            exec(code, ns)
+    ns["ptr"] = ns["partial_trace"]
+    return NS(**{k: ns[k] for k in names})
+
+
+def provider_grid(tier="quick", root=None, only=None):
+    import numpy as np
+    import scipy.sparse as sp
+    from vf.framework import ObResult
+
+    F = load_real(root)
+    rng = np.random.default_rng(7)
+    out = []
+
+    def rnd(*shape):
+        return rng.integers(-4, 5, size=shape) + 1j * rng.integers(-4, 5, size=shape)
+
+    def dense(x):
+        return x.toarray() if sp.issparse(x) else np.asarray(x)
+
+    def run(fn, label, gen):
+        if only and not any(o in f"{fn}::{label}" for o in only):
+            return
+        t0, n, bad = _time.time(), 0, None
+        try:
+            for desc, got, want in gen():
+                n += 1
+                g, w = dense(got()), want()
+                if g.shape != w.shape or not np.allclose(g, w, atol=1e-9):
+                    bad = dict(input=desc, got=str(g.tolist())[:200], want=str(w.tolist())[:200])
+                    break
+        except Exception as e:  # noqa
+            bad = dict(input=str(locals().get("desc")), error=f"{type(e).__name__}: {e}"[:200])
+        out.append(ObResult(id=f"{CORE}::{fn}::{label}", kind="fdx", status="failed" if bad else "discharged",
+                            backend="exhaustive", solver_s=round(_time.time() - t0, 3), function=f"{CORE}::{fn}",
+                            model=bad or {"inputs": n}, engine="fdx"))
+
+    vals = (1, 2, 3)
+    all_dims = [d for K in (1, 2, 3) for d in itertools.product(vals, repeat=K)]
+    big_dims = [d for K in (1, 2, 3) for d in itertools.product((2, 3), repeat=K)]
+    D = lambda dims: int(np.prod(dims, dtype=int))
+    fmts = ("csr", "csc", "coo", "bsr") if tier == "thorough" else ("csr", "coo")
+
+    # ---- permute: subsystem perm[k] of the input becomes subsystem k of the output
+    def gen_permute(sparse):
+        def g():
+            for dims in all_dims:
+                K, d = len(dims), D(dims)
+                for perm in itertools.permutations(range(K)):
+                    for kind in ("ket", "bra", "op"):
+                        x = rnd(d, 1) if kind == "ket" else rnd(1, d) if kind == "bra" else rnd(d, d)
+                        if kind == "op":
+                            want = lambda x=x: x.reshape(dims + dims).transpose(list(perm) + [q + K for q in perm]).reshape(d, d)
+                        else:
+                            want = lambda x=x, kind=kind: x.reshape(dims).transpose(perm).reshape((d, 1) if kind == "ket" else (1, d))
+                        xin = sp.csr_matrix(x) if sparse else x
+                        yield (f"dims={dims} perm={perm} {kind}", lambda xin=xin, perm=perm: F.permute(xin, list(dims), list(perm)), want)
+        return g
+    run("permute", "grid-dense==numpy-transpose", gen_permute(False))
+    run("permute", "grid-sparse==numpy-transpose", gen_permute(True))
+
+    # ---- pkron: op acts on dims[inds] (in the order given), identity elsewhere
+    def gen_pkron(sparse):
+        def g():
+            for dims in big_dims:
+                K, d = len(dims), D(dims)
+                for inds in _ordered_subsets(K):
+                    din = tuple(dims[i] for i in inds)
+                    rest = [i for i in range(K) if i not in inds]
+                    drest = tuple(dims[i] for i in rest)
+                    op = rnd(D(din), D(din))
+                    p = list(inds) + rest
+                    inv = [p.index(k) for k in range(K)]
+
+                    def want(op=op, drest=drest, din=din, inv=inv, K=K, d=d):
+                        full = np.kron(op, np.eye(D(drest))).reshape(din + drest + din + drest)
+                        return full.transpose(inv + [q + K for q in inv]).reshape(d, d)
+                    oin = sp.csr_matrix(op) if sparse else op
+                    yield (f"dims={dims} inds={inds}", lambda oin=oin, inds=inds: F.pkron(oin, list(dims), list(inds)), want)
+        return g
+    run("pkron", "grid-dense==explicit-embedding", gen_pkron(False))
+    run("pkron", "grid-sparse==explicit-embedding", gen_pkron(True))
+
+    # ---- partial trace family
+    letters = "abcdefgh"
+
+    def ptr_ref(rho, dims, keep):
+        K = len(dims)
+        keep = sorted(keep)
+        r = rho.reshape(tuple(dims) + tuple(dims))
+        row = [letters[i] for i in range(K)]
+        col = [letters[i] if i not in keep else letters[i].upper() for i in range(K)]
+        outl = [letters[i] for i in keep] + [letters[i].upper() for i in keep]
+        dk = D([dims[i] for i in keep])
+        return np.einsum("".join(row + col) + "->" + "".join(outl), r).reshape(dk, dk)
+
+    def gen_ptr(fmt, kind):
+        def g():
+            # sparse route: subsystem dimensions >= 2 (dimension-1 subsystems: recorded finding C15-b in dim_compress);
+            # operators: total dimension >= 2 (a 1 x 1 array is a ket for isvec / isop) and hermitian (the sparse route
+            # fills the lower triangle by conjugation)
+            for dims in (all_dims if fmt == "dense" else big_dims):
+                K, d = len(dims), D(dims)
+                if kind == "op" and d == 1:
+                    continue
+                psi = rnd(d, 1)
+                h = rnd(d, d)
+                rho = psi @ psi.conj().T if kind == "ket" else h + h.conj().T
+                x = psi if kind == "ket" else rho
+                xin = x if fmt == "dense" else sp.csr_matrix(x).asformat(fmt)
+                for m in range(1, K + 1):
+                    for keep in itertools.permutations(range(K), m):
+                        kk = [keep[0], list(keep)] if m == 1 else [list(keep)]
+                        for k_ in kk:
+                            yield (f"dims={dims} keep={k_} {kind} {fmt}", lambda xin=xin, k_=k_: F.partial_trace(xin, list(dims), k_),
+                                   lambda rho=rho, keep=keep: ptr_ref(rho, dims, keep))
+        return g
+    for fmt in ("dense",) + fmts:
+        for kind in ("ket", "op"):
+            run("partial_trace", f"grid-{fmt}-{kind}==einsum", gen_ptr(fmt, kind))
+
+    def gen_single(which):
+        def g():
+            for dims in all_dims:
+                K, d = len(dims), D(dims)
+                if d == 1:
+                    continue  # a 1 x 1 array is not an operator for isop
+                rho = rnd(d, d)
+                rho = rho + rho.conj().T  # both routines fill the lower triangle by conjugation (hermitian input)
+                for pos in range(K):
+                    keep = [i for i in range(K) if i != pos] if which == "_trace_lose" else [pos]
+                    if which == "_trace_lose" and K == 1:
+                        yield (f"dims={dims} lose={pos}", lambda rho=rho, pos=pos: getattr(F, which)(rho, list(dims), pos),
+                               lambda rho=rho: np.trace(rho).reshape(1, 1))
+                        continue
+                    yield (f"dims={dims} pos={pos}", lambda rho=rho, pos=pos: getattr(F, which)(rho, list(dims), pos),
+                           lambda rho=rho, keep=keep: ptr_ref(rho, dims, keep))
+        return g
+    run("_trace_lose", "grid==einsum", gen_single("_trace_lose"))
+    run("_trace_keep", "grid==einsum", gen_single("_trace_keep"))
+
+    # ---- itrace: pairs (l, l + K) in every order
+    def gen_itrace():
+        for dims in big_dims:
+            K = len(dims)
+            a = rnd(*(tuple(dims) + tuple(dims)))
+            for m in range(1, K + 1):
+                for lose in itertools.permutations(range(K), m):
+                    keep = [i for i in range(K) if i not in lose]
+                    dk = tuple(dims[i] for i in keep)
+                    axes = ([list(lose), [q + K for q in lose]])
+                    yield (f"dims={dims} axes={axes}", lambda a=a, axes=axes: F.itrace(a, axes),
+                           lambda a=a, keep=keep, dk=dk: ptr_ref(a, dims, keep).reshape(dk + dk) if keep else
+                           np.asarray(np.einsum("".join(letters[:K]) * 2, a)))
+                    if m == 1:
+                        yield (f"dims={dims} axes=({lose[0]},{lose[0] + K})", lambda a=a, l=lose[0]: F.itrace(a, (l, l + K)),
+                               lambda a=a, keep=keep, dk=dk: ptr_ref(a, dims, keep).reshape(dk + dk) if keep else
+                               np.asarray(np.einsum("".join(letters[:K]) * 2, a)))
+    run("itrace", "grid==einsum", gen_itrace)
+
+    # ---- ind_complement (n <= 6, every subset) and _find_shape_of_nested_int_array (depth <= 3, extents <= 3)
+    def gen_indc():
+        for n in range(7):
+            for s in _subsets(n):
+                for inds in (tuple(s), tuple(s[::-1]), set(s)):
+                    yield (f"n={n} inds={inds}", lambda inds=inds, n=n: np.asarray(F.ind_complement(inds, n), dtype=float),
+                           lambda s=s, n=n: np.asarray([i for i in range(n) if i not in s], dtype=float))
+    run("ind_complement", "fdx-n<=6==ascending-complement", gen_indc)
+
+    def gen_shape():
+        for depth in (1, 2, 3):
+            for shp in itertools.product(vals, repeat=depth):
+                arr = np.arange(2, 2 + D(shp)).reshape(shp)
+                for conv in ("list", "tuple", "npint"):
+                    def nest(x, conv=conv):
+                        if x.ndim == 0:
+                            return int(x) if conv != "npint" else np.int64(x)
+                        it = [nest(y) for y in x]
+                        return tuple(it) if conv == "tuple" else it
+                    yield (f"shape={shp} {conv}", lambda arr=arr, nest=nest: np.asarray(F._find_shape_of_nested_int_array(nest(arr)), dtype=float),
+                           lambda shp=shp: np.asarray(shp, dtype=float))
+    run("_find_shape_of_nested_int_array", "grid==numpy-shape", gen_shape)
+    return out
